@@ -20,6 +20,17 @@ func c18Strs(name string) []string {
 	return []string{zzverif.StringOf(name+".0", 1, "ab."), zzverif.StringOf(name+".1", 1, "ab.")}
 }
 
+// c18Users: a list of user names; the empty name is a user like any other (a client without `user`)
+func c18Users(name string) []string {
+	switch zzverif.Choice(name+".blank", 3) {
+	case 1:
+		return []string{""}
+	case 2:
+		return []string{zzverif.StringOf(name+".0", 1, "ab."), ""}
+	}
+	return c18Strs(name)
+}
+
 // c18Opt: empty or a one-byte symbolic string; `set` shares the emptiness choice between related fields.
 func c18Opt(name string, set bool, alpha string) string {
 	if !set {
@@ -121,15 +132,15 @@ func VerifC18RoundTrip() {
 		c18Base(&c.ProxyBaseConfig, typ)
 		cli = c
 	case "stcp":
-		c := &v1.STCPProxyConfig{Secretkey: zzverif.StringOf("sk", 2, "sk"), AllowUsers: c18Strs("allow")}
+		c := &v1.STCPProxyConfig{Secretkey: zzverif.StringOf("sk", 2, "sk"), AllowUsers: c18Users("allow")}
 		c18Base(&c.ProxyBaseConfig, typ)
 		cli = c
 	case "xtcp":
-		c := &v1.XTCPProxyConfig{Secretkey: zzverif.StringOf("sk", 2, "sk"), AllowUsers: c18Strs("allow")}
+		c := &v1.XTCPProxyConfig{Secretkey: zzverif.StringOf("sk", 2, "sk"), AllowUsers: c18Users("allow")}
 		c18Base(&c.ProxyBaseConfig, typ)
 		cli = c
 	default:
-		c := &v1.SUDPProxyConfig{Secretkey: zzverif.StringOf("sk", 2, "sk"), AllowUsers: c18Strs("allow")}
+		c := &v1.SUDPProxyConfig{Secretkey: zzverif.StringOf("sk", 2, "sk"), AllowUsers: c18Users("allow")}
 		c18Base(&c.ProxyBaseConfig, typ)
 		cli = c
 	}
